@@ -1,3 +1,10 @@
 import ZCV.Props.C07
 open ZCV.Props.C07
 #print axioms C07_lineShape_no_internal
+#print axioms C07_no_internal
+#print axioms C07_no_internal_schemaOK
+#print axioms C07_outcomes
+#print axioms C07_no_internal_no_resources
+#print axioms C07_schemaless_no_internal
+#print axioms C07_schemaless_plain_no_internal
+#print axioms C07_parser_no_internal
